@@ -1,4 +1,5 @@
 import SpecVerif.Props.C03
+import SpecVerif.Props.C03Boot
 /-!
 # C03 — element, key and value types at ANY depth, independent of neighbours and of order
 
